@@ -408,6 +408,9 @@ std::optional<std::pair<std::string, std::uint16_t>> parse_endpoint(const std::s
 }  // namespace
 
 std::vector<Node::ControlEndpoint> Node::preferred_control_endpoints() const {
+    // Session threads publish manifests too: the advertise state rewritten by start_transport
+    // (refresh_advertised_endpoints, nat_status_) is read and written under scheduler_mutex_.
+    SchedulerLock lock(scheduler_mutex_);
     std::vector<ControlEndpoint> endpoints;
     endpoints.reserve(config_.advertised_endpoints.size() + config_.auto_advertise_candidates.size() + 2);
     std::unordered_set<std::string> seen;
@@ -2129,7 +2132,11 @@ void Node::tick() {
 void Node::start_transport(std::uint16_t port) {
     initialize_transport_handler();
     sessions_.start(port);
-    nat_status_ = nat_manager_.coordinate("0.0.0.0", sessions_.listening_port());
+    auto nat_status = nat_manager_.coordinate("0.0.0.0", sessions_.listening_port());
+    {
+        SchedulerLock lock(scheduler_mutex_);
+        nat_status_ = std::move(nat_status);
+    }
     if (relay_client_) {
         relay_client_->start();
     }
@@ -2727,6 +2734,7 @@ bool Node::deliver_manifest(const protocol::Manifest& manifest,
 }
 
 std::string Node::self_endpoint() const {
+    SchedulerLock lock(scheduler_mutex_);
     const auto port = sessions_.listening_port();
     if (port == 0) {
         return {};
@@ -2741,6 +2749,7 @@ std::string Node::self_endpoint() const {
 }
 
 void Node::refresh_advertised_endpoints() {
+    SchedulerLock lock(scheduler_mutex_);
     config_.auto_advertise_candidates.clear();
     config_.auto_advertise_warnings.clear();
     config_.auto_advertise_conflict = false;
